@@ -324,6 +324,7 @@ Theorem new_table_cells s ht cs chs sids tsid' s' k c h :
     match c with
     | CFrom src None => exists vs, getv s src = Some vs /\ vals v = vals vs /\ nm v = nm vs
     | CFrom src (Some idx) => exists vs, getv s src = Some vs /\ vals v = select (vals vs) idx SNone /\ nm v = nm vs
+    | CFromAs src n => exists vs, getv s src = Some vs /\ vals v = vals vs /\ nm v = n
     | CCat src extra => exists vs, getv s src = Some vs /\ vals v = vals vs ++ extra
     | CLit l n => vals v = l /\ nm v = n
     | CRes l n => vals v = l /\ nm v = n
@@ -339,9 +340,10 @@ Proof.
   exists v. split.
   - unfold getv in *. simpl. rewrite aget_app_other; [exact Hv|]. intros ->.
     rewrite Hf in Hv. discriminate.
-  - destruct c as [src [idx|]|src extra|l n|l n]; simpl in Hbc.
+  - destruct c as [src [idx|]|src n0|src extra|l n|l n]; simpl in Hbc.
     + destruct (getv s src) as [vs|]; [|discriminate].
       destruct (forallb _ idx); [|discriminate]. inversion Hbc; subst. exists vs. simpl in *. auto.
+    + destruct (getv s src) as [vs|]; [|discriminate]. inversion Hbc; subst. exists vs. simpl in *. auto.
     + destruct (getv s src) as [vs|]; [|discriminate]. inversion Hbc; subst. exists vs. simpl in *. auto.
     + destruct (getv s src) as [vs|]; [|discriminate]. inversion Hbc; subst. exists vs. simpl in *. auto.
     + inversion Hbc; subst. simpl in *. auto.
